@@ -112,72 +112,131 @@ input_merge_opt!(c14_in_merge_sequence, sequence, Sequence(kani::any()));
 input_merge_opt!(c14_in_merge_sighash_type, sighash_type, PsbtSighashType::from_u32(kani::any()));
 
 // ---- all other Option fields ----
-//@ harness: c14_in_merge_non_witness_utxo class=B tier=thorough bound="transaction with 0 inputs / 0 outputs, symbolic version and lock time"
-//@ clause: Input::merge keeps non_witness_utxo present in either operand, order-insensitive
-input_merge_opt!(c14_in_merge_non_witness_utxo, non_witness_utxo, any_tx0());
-//@ harness: c14_in_merge_witness_utxo class=B tier=quick bound="TxOut with explicit symbolic value and asset, null nonce, empty script"
-//@ clause: Input::merge keeps witness_utxo present in either operand, order-insensitive
-input_merge_opt!(c14_in_merge_witness_utxo, witness_utxo, any_txout());
-//@ harness: c14_in_merge_redeem_script class=B tier=quick bound="script of exactly 2 symbolic bytes"
-//@ clause: Input::merge keeps redeem_script present in either operand, order-insensitive
-input_merge_opt!(c14_in_merge_redeem_script, redeem_script, script2());
-//@ harness: c14_in_merge_witness_script class=B tier=thorough bound="script of exactly 2 symbolic bytes"
-//@ clause: Input::merge keeps witness_script present in either operand, order-insensitive
-input_merge_opt!(c14_in_merge_witness_script, witness_script, script2());
-//@ harness: c14_in_merge_final_script_sig class=B tier=quick bound="script of exactly 2 symbolic bytes"
-//@ clause: Input::merge keeps final_script_sig present in either operand, order-insensitive
-input_merge_opt!(c14_in_merge_final_script_sig, final_script_sig, script2());
-//@ harness: c14_in_merge_final_script_witness class=B tier=quick bound="witness stack of one 1-byte element"
-//@ clause: Input::merge keeps final_script_witness present in either operand, order-insensitive
-input_merge_opt!(c14_in_merge_final_script_witness, final_script_witness, wit1());
+// scalar (heap-free) values: symbolic presence pattern
 //@ harness: c14_in_merge_required_time_locktime class=F tier=quick
-//@ clause: Input::merge keeps required_time_locktime present in either operand, order-insensitive
+//@ clause: Input::merge keeps required_time_locktime present in either operand (identical or one-sided), order-insensitive, no other field disturbed
 input_merge_opt!(c14_in_merge_required_time_locktime, required_time_locktime, any_time());
 //@ harness: c14_in_merge_required_height_locktime class=F tier=thorough
-//@ clause: Input::merge keeps required_height_locktime present in either operand, order-insensitive
+//@ clause: Input::merge keeps required_height_locktime present in either operand (identical or one-sided), order-insensitive, no other field disturbed
 input_merge_opt!(c14_in_merge_required_height_locktime, required_height_locktime, any_height());
 //@ harness: c14_in_merge_tap_key_sig class=F tier=quick
-//@ clause: Input::merge keeps the taproot key-spend signature present in either operand, order-insensitive
+//@ clause: Input::merge keeps the taproot key-spend signature present in either operand (identical or one-sided), order-insensitive, no other field disturbed
 input_merge_opt!(c14_in_merge_tap_key_sig, tap_key_sig, any_schnorr_sig());
 //@ harness: c14_in_merge_tap_merkle_root class=F tier=thorough
-//@ clause: Input::merge keeps tap_merkle_root present in either operand, order-insensitive
+//@ clause: Input::merge keeps tap_merkle_root present in either operand (identical or one-sided), order-insensitive, no other field disturbed
 input_merge_opt!(c14_in_merge_tap_merkle_root, tap_merkle_root, TapNodeHash::from_byte_array(kani::any()));
 //@ harness: c14_in_merge_issuance_value_amount class=F tier=quick
-//@ clause: Input::merge keeps issuance_value_amount present in either operand, order-insensitive
+//@ clause: Input::merge keeps issuance_value_amount present in either operand (identical or one-sided), order-insensitive, no other field disturbed
 input_merge_opt!(c14_in_merge_issuance_value_amount, issuance_value_amount, kani::any::<u64>());
-//@ harness: c14_in_merge_pegin_tx class=B tier=thorough bound="bitcoin transaction with 0 inputs / 0 outputs"
-//@ clause: Input::merge keeps pegin_tx present in either operand, order-insensitive
-input_merge_opt!(c14_in_merge_pegin_tx, pegin_tx, any_btx0());
-//@ harness: c14_in_merge_pegin_txout_proof class=B tier=thorough bound="2 symbolic bytes"
-//@ clause: Input::merge keeps pegin_txout_proof present in either operand, order-insensitive
-input_merge_opt!(c14_in_merge_pegin_txout_proof, pegin_txout_proof, bytes2());
 //@ harness: c14_in_merge_pegin_genesis_hash class=F tier=thorough
-//@ clause: Input::merge keeps pegin_genesis_hash present in either operand, order-insensitive
+//@ clause: Input::merge keeps pegin_genesis_hash present in either operand (identical or one-sided), order-insensitive, no other field disturbed
 input_merge_opt!(c14_in_merge_pegin_genesis_hash, pegin_genesis_hash, BlockHash::from_byte_array(kani::any()));
-//@ harness: c14_in_merge_pegin_claim_script class=B tier=thorough bound="script of exactly 2 symbolic bytes"
-//@ clause: Input::merge keeps pegin_claim_script present in either operand, order-insensitive
-input_merge_opt!(c14_in_merge_pegin_claim_script, pegin_claim_script, script2());
 //@ harness: c14_in_merge_pegin_value class=F tier=thorough
-//@ clause: Input::merge keeps pegin_value present in either operand, order-insensitive
+//@ clause: Input::merge keeps pegin_value present in either operand (identical or one-sided), order-insensitive, no other field disturbed
 input_merge_opt!(c14_in_merge_pegin_value, pegin_value, kani::any::<u64>());
-//@ harness: c14_in_merge_pegin_witness class=B tier=thorough bound="witness stack of one 1-byte element"
-//@ clause: Input::merge keeps pegin_witness present in either operand, order-insensitive
-input_merge_opt!(c14_in_merge_pegin_witness, pegin_witness, wit1());
 //@ harness: c14_in_merge_issuance_inflation_keys class=F tier=thorough
-//@ clause: Input::merge keeps issuance_inflation_keys present in either operand, order-insensitive
+//@ clause: Input::merge keeps issuance_inflation_keys present in either operand (identical or one-sided), order-insensitive, no other field disturbed
 input_merge_opt!(c14_in_merge_issuance_inflation_keys, issuance_inflation_keys, kani::any::<u64>());
 //@ harness: c14_in_merge_issuance_asset_entropy class=F tier=quick
-//@ clause: Input::merge keeps issuance_asset_entropy present in either operand, order-insensitive
+//@ clause: Input::merge keeps issuance_asset_entropy present in either operand (identical or one-sided), order-insensitive, no other field disturbed
 input_merge_opt!(c14_in_merge_issuance_asset_entropy, issuance_asset_entropy, kani::any::<[u8; 32]>());
 //@ harness: c14_in_merge_amount class=F tier=thorough
-//@ clause: Input::merge keeps the explicit amount present in either operand, order-insensitive
+//@ clause: Input::merge keeps the explicit amount present in either operand (identical or one-sided), order-insensitive, no other field disturbed
 input_merge_opt!(c14_in_merge_amount, amount, kani::any::<u64>());
 //@ harness: c14_in_merge_asset class=F tier=quick
-//@ clause: Input::merge keeps the explicit asset present in either operand, order-insensitive
+//@ clause: Input::merge keeps the explicit asset present in either operand (identical or one-sided), order-insensitive, no other field disturbed
 input_merge_opt!(c14_in_merge_asset, asset, AssetId::from_byte_array(kani::any()));
 //@ harness: c14_in_merge_blinded_issuance class=F tier=thorough
-//@ clause: Input::merge keeps blinded_issuance present in either operand, order-insensitive
+//@ clause: Input::merge keeps blinded_issuance present in either operand (identical or one-sided), order-insensitive, no other field disturbed
 input_merge_opt!(c14_in_merge_blinded_issuance, blinded_issuance, kani::any::<u8>());
+
+// Fields whose value owns heap memory (scripts, byte vectors, witness stacks, transactions).  Measured: with a
+// *symbolic* presence pattern these take > 25 min each, with a concrete pattern ~1 min.  So the presence patterns are
+// split into two harnesses per field:
+//   *_onesided : only ONE operand has the field (value symbolic); merged in BOTH directions, i.e. "present only in the
+//                second operand" and "present only in the first operand"; both results equal default + f := Some(v)
+//   *_identical: both operands have the identical value
+macro_rules! input_merge_heap {
+    ($one:ident, $ident:ident, $field:ident, $mk:expr) => {
+        #[kani::proof]
+        fn $one() {
+            let v = $mk;
+            let mut a1 = Input::default(); let mut b1 = Input::default();
+            let a2 = Input::default(); let mut b2 = Input::default();
+            let mut want = Input::default();
+            b1.$field = Some(v.clone()); b2.$field = Some(v.clone()); want.$field = Some(v);
+            match a1.merge(b1) { Ok(()) => {}, Err(e) => { fgt(e); assert!(false, "merge of conflict-free operands failed"); } }
+            match b2.merge(a2) { Ok(()) => {}, Err(e) => { fgt(e); assert!(false, "merge of conflict-free operands failed"); } }
+            kani::cover!(true);
+            assert!(a1.$field == want.$field, "field present only in the second operand is present in the result");
+            assert!(b2.$field == want.$field, "field present only in the first operand is kept");
+            assert!(a1 == want, "no other field disturbed");
+            assert!(b2 == want, "no other field disturbed (other order)");
+            fgt(a1); fgt(b2); fgt(want);
+        }
+        #[kani::proof]
+        fn $ident() {
+            let v = $mk;
+            let mut a1 = Input::default(); let mut b1 = Input::default();
+            let mut want = Input::default();
+            a1.$field = Some(v.clone()); b1.$field = Some(v.clone()); want.$field = Some(v);
+            match a1.merge(b1) { Ok(()) => {}, Err(e) => { fgt(e); assert!(false, "merge of identical additions failed"); } }
+            kani::cover!(true);
+            assert!(a1 == want, "identical additions merge to that value, nothing else disturbed");
+            fgt(a1); fgt(want);
+        }
+    };
+}
+//@ harness: c14_in_merge_non_witness_utxo_onesided class=B tier=thorough bound="transaction with 0 inputs / 0 outputs, symbolic version and lock time"
+//@ clause: Input::merge: non_witness_utxo present in exactly one operand is present in the result whichever operand is merged into which; no other field disturbed
+//@ harness: c14_in_merge_non_witness_utxo_identical class=B tier=thorough bound="transaction with 0 inputs / 0 outputs, symbolic version and lock time"
+//@ clause: Input::merge: identical non_witness_utxo in both operands merges to that value
+input_merge_heap!(c14_in_merge_non_witness_utxo_onesided, c14_in_merge_non_witness_utxo_identical, non_witness_utxo, any_tx0());
+//@ harness: c14_in_merge_witness_utxo_onesided class=B tier=quick bound="TxOut with explicit symbolic value and asset, null nonce, empty script"
+//@ clause: Input::merge: witness_utxo present in exactly one operand is present in the result whichever operand is merged into which; no other field disturbed
+//@ harness: c14_in_merge_witness_utxo_identical class=B tier=thorough bound="TxOut with explicit symbolic value and asset, null nonce, empty script"
+//@ clause: Input::merge: identical witness_utxo in both operands merges to that value
+input_merge_heap!(c14_in_merge_witness_utxo_onesided, c14_in_merge_witness_utxo_identical, witness_utxo, any_txout());
+//@ harness: c14_in_merge_redeem_script_onesided class=B tier=quick bound="script of exactly 2 symbolic bytes"
+//@ clause: Input::merge: redeem_script present in exactly one operand is present in the result whichever operand is merged into which; no other field disturbed
+//@ harness: c14_in_merge_redeem_script_identical class=B tier=thorough bound="script of exactly 2 symbolic bytes"
+//@ clause: Input::merge: identical redeem_script in both operands merges to that value
+input_merge_heap!(c14_in_merge_redeem_script_onesided, c14_in_merge_redeem_script_identical, redeem_script, script2());
+//@ harness: c14_in_merge_witness_script_onesided class=B tier=thorough bound="script of exactly 2 symbolic bytes"
+//@ clause: Input::merge: witness_script present in exactly one operand is present in the result whichever operand is merged into which; no other field disturbed
+//@ harness: c14_in_merge_witness_script_identical class=B tier=thorough bound="script of exactly 2 symbolic bytes"
+//@ clause: Input::merge: identical witness_script in both operands merges to that value
+input_merge_heap!(c14_in_merge_witness_script_onesided, c14_in_merge_witness_script_identical, witness_script, script2());
+//@ harness: c14_in_merge_final_script_sig_onesided class=B tier=quick bound="script of exactly 2 symbolic bytes"
+//@ clause: Input::merge: final_script_sig present in exactly one operand is present in the result whichever operand is merged into which; no other field disturbed
+//@ harness: c14_in_merge_final_script_sig_identical class=B tier=thorough bound="script of exactly 2 symbolic bytes"
+//@ clause: Input::merge: identical final_script_sig in both operands merges to that value
+input_merge_heap!(c14_in_merge_final_script_sig_onesided, c14_in_merge_final_script_sig_identical, final_script_sig, script2());
+//@ harness: c14_in_merge_final_script_witness_onesided class=B tier=quick bound="witness stack of one 1-byte element"
+//@ clause: Input::merge: final_script_witness present in exactly one operand is present in the result whichever operand is merged into which; no other field disturbed
+//@ harness: c14_in_merge_final_script_witness_identical class=B tier=thorough bound="witness stack of one 1-byte element"
+//@ clause: Input::merge: identical final_script_witness in both operands merges to that value
+input_merge_heap!(c14_in_merge_final_script_witness_onesided, c14_in_merge_final_script_witness_identical, final_script_witness, wit1());
+//@ harness: c14_in_merge_pegin_tx_onesided class=B tier=thorough bound="bitcoin transaction with 0 inputs / 0 outputs"
+//@ clause: Input::merge: pegin_tx present in exactly one operand is present in the result whichever operand is merged into which; no other field disturbed
+//@ harness: c14_in_merge_pegin_tx_identical class=B tier=thorough bound="bitcoin transaction with 0 inputs / 0 outputs"
+//@ clause: Input::merge: identical pegin_tx in both operands merges to that value
+input_merge_heap!(c14_in_merge_pegin_tx_onesided, c14_in_merge_pegin_tx_identical, pegin_tx, any_btx0());
+//@ harness: c14_in_merge_pegin_txout_proof_onesided class=B tier=thorough bound="2 symbolic bytes"
+//@ clause: Input::merge: pegin_txout_proof present in exactly one operand is present in the result whichever operand is merged into which; no other field disturbed
+//@ harness: c14_in_merge_pegin_txout_proof_identical class=B tier=thorough bound="2 symbolic bytes"
+//@ clause: Input::merge: identical pegin_txout_proof in both operands merges to that value
+input_merge_heap!(c14_in_merge_pegin_txout_proof_onesided, c14_in_merge_pegin_txout_proof_identical, pegin_txout_proof, bytes2());
+//@ harness: c14_in_merge_pegin_claim_script_onesided class=B tier=thorough bound="script of exactly 2 symbolic bytes"
+//@ clause: Input::merge: pegin_claim_script present in exactly one operand is present in the result whichever operand is merged into which; no other field disturbed
+//@ harness: c14_in_merge_pegin_claim_script_identical class=B tier=thorough bound="script of exactly 2 symbolic bytes"
+//@ clause: Input::merge: identical pegin_claim_script in both operands merges to that value
+input_merge_heap!(c14_in_merge_pegin_claim_script_onesided, c14_in_merge_pegin_claim_script_identical, pegin_claim_script, script2());
+//@ harness: c14_in_merge_pegin_witness_onesided class=B tier=thorough bound="witness stack of one 1-byte element"
+//@ clause: Input::merge: pegin_witness present in exactly one operand is present in the result whichever operand is merged into which; no other field disturbed
+//@ harness: c14_in_merge_pegin_witness_identical class=B tier=thorough bound="witness stack of one 1-byte element"
+//@ clause: Input::merge: identical pegin_witness in both operands merges to that value
+input_merge_heap!(c14_in_merge_pegin_witness_onesided, c14_in_merge_pegin_witness_identical, pegin_witness, wit1());
 
 // ---- BTreeMap fields: one entry per operand, identical or disjoint ----
 // Oracle (property text): the result contains every entry of either operand, nothing else, in both merge orders.
